@@ -333,6 +333,49 @@ def check_pinned():
     return '\n'.join(notes) + '\n'
 
 
+# ------------------------------------------------------------------------------------------------ Json / array re-wrap condition
+
+KEEP_ATOMS = {'isinstance(val, TrackedValue)': 'tv_is_tracked val',
+              'val.obj_ref() is obj': 'tv_owner_is val obj',
+              'val.attr is converter.attr': 'tv_attr_is val attr'}
+
+def keep_condition(test, q):
+    """The condition under which validate hands the given (tracked) value back as is: a conjunction of known atoms."""
+    atoms = test.values if isinstance(test, ast.BoolOp) and isinstance(test.op, ast.And) else [test]
+    terms = []
+    for a in atoms:
+        t = ast.unparse(a)
+        if t not in KEEP_ATOMS: raise TranslateError('%s: condition for returning the value unchanged is not understood: %s' % (q, t))
+        terms.append(KEEP_ATOMS[t])
+    out = 'true'
+    for t in reversed(terms): out = '(%s && %s)' % (t, out)
+    return out
+
+
+def gen_tracked_validate():
+    rel = 'pony/orm/dbapiprovider.py'
+    fdef, src, lineno = load(rel, 'JsonConverter.validate')
+    body = body_of(fdef)
+    expect(len(body) == 3 and ast.unparse(body[0]) == 'if obj is None or converter.attr is None:\n    return val'
+           and isinstance(body[1], ast.If) and not body[1].orelse and [ast.unparse(x) for x in body[1].body] == ['return val']
+           and ast.unparse(body[2]) == 'return TrackedValue.make(obj, converter.attr, val)', 'JsonConverter.validate: statement structure changed')
+    out = ('(* %s:%d JsonConverter.validate for a bound attribute (obj and converter.attr not None): the value is kept as is under the condition read from the source, '
+           'else re-wrapped as a tracked copy bound to (obj, attr) *)\n'
+           'Definition json_keeps (obj attr : Z) (val : tval) : bool := %s.\n'
+           'Definition json_validate (obj attr : Z) (val : tval) : tval := if json_keeps obj attr val then val else TTracked obj attr (tv_payload val).\n'
+           % (rel, lineno, keep_condition(body[1].test, 'JsonConverter.validate')))
+    fdef, src, lineno = load(rel, 'ArrayConverter.validate')
+    body = body_of(fdef)
+    expect(len(body) >= 3 and isinstance(body[0], ast.If) and not body[0].orelse and [ast.unparse(x) for x in body[0].body] == ['return val']
+           and ast.unparse(body[-2]) == 'if obj is None or converter.attr is None:\n    return items'
+           and ast.unparse(body[-1]) == 'return TrackedArray(obj, converter.attr, items)', 'ArrayConverter.validate: statement structure changed')
+    out += ('(* %s:%d ArrayConverter.validate (first and last statements; the item type checks in between are not modelled) *)\n'
+            'Definition array_keeps (obj attr : Z) (val : tval) : bool := %s.\n'
+            'Definition array_validate (obj attr : Z) (val : tval) : tval := if array_keeps obj attr val then val else TTracked obj attr (tv_payload val).\n'
+            % (rel, lineno, keep_condition(body[0].test, 'ArrayConverter.validate')))
+    return out
+
+
 def generate():
     out = ['(* GENERATED by tools/py2coq/codecs.py from /repo on every run -- do not edit *)',
            'Require Import PonyV.Base.PyBase PonyV.Model.C07Base PonyV.Model.C07Fmt.', '']
@@ -343,6 +386,7 @@ def generate():
     out.append(gen_sqlite_time())
     out.append(gen_sqlite_date())
     out.append(gen_sqlite_datetime())
+    out.append(gen_tracked_validate())
     out.append(check_pinned())
     return '\n'.join(out)
 
